@@ -3,7 +3,7 @@ import re
 
 import mir
 import util
-from mir import peel, show, unname, Unrecognised, field_chain
+from mir import peel, show, unname, Unrecognised, field_chain, canon
 
 EXPLANATION = (
     "Static decision of the structural clauses of C02 on the MIR of the driver loop, the index "
@@ -514,6 +514,34 @@ def rule_slice(ctx):
                       'row/line argument does not read self.{%s}' % ','.join(sorted(written)))
 
 
+def rule_args(ctx):
+    """the range the loop and the clamp see is the range the user typed: -s/-e reach options.range unchanged"""
+    prog = ctx.prog
+    pa = prog.one('parse_args')
+    ctx.touch(pa)
+    agg = [canon(pa.rvalue_expr(s['rv'])) for i in pa.live for s in pa.blocks[i]['stmts']
+           if s['k'] == 'assign' and s['rv']['k'] == 'aggr' and s['rv'].get('adt', '').endswith('ParserOptions')]
+    want = 'range: new(unwrap_or(copied(get_one(a1, "start")), 0), copied(get_one(a1, "end")))?'
+    ctx.check('args', 'range=cli-values-unchanged', len(agg) == 1 and want in agg[0], pa,
+              'ParserOptions.range = BlockHeightRange::new(--start or 0, --end)?',
+              bad_detail='ParserOptions.range is built as %s' % (re.findall(r'range: .*', agg[0])[0][:200] if agg else '?'))
+    bn = prog.one('BlockHeightRange::new')
+    ctx.touch(bn)
+    rets = sorted((canon(bn.rvalue_expr(d[3])), tuple(util.guards_at(bn, d[1]))) for d in bn.defs().get(0, []) if d[0] == 'assign')
+    okn = ('Result::Ok{0: BlockHeightRange::BlockHeightRange{start: a1, end: a2}}', ()) in rets
+    ctx.check('args', 'range-ctor-stores-both-bounds', okn, bn, 'BlockHeightRange::new = %s' % [r[0] for r in rets])
+    err = [r for r in rets if r[0].startswith('Result::Err')]
+    ctx.check('args', 'rejects-only-start>=end', len(err) == 1 and err[0][1] == ('is_some(a2)', 'unwrap(a2) <= a1'), bn,
+              'Err only when end is given and end <= start (%s)' % ([e[1] for e in err]))
+    dflt = prog.one('BlockHeightRange::is_default')
+    ctx.check('args', 'default-range', canon(dflt.ret_expr()) == 'phi(false | is_none(self.end))', dflt, 'is_default = start == 0 && end.is_none()')
+    g = [(canon(dflt.rvalue_expr(d[3])) if d[0] == 'assign' else canon(dflt.call_expr(d[2])), util.guards_at(dflt, d[1])) for d in dflt.defs().get(0, [])]
+    ctx.check('args', 'default-range-guards', sorted(g) == sorted([('false', ['self.start != 0']), ('is_none(self.end)', ['self.start == 0'])]), dflt, '%s' % g)
+    wr = [(b.path, ch) for b in prog.bodies.values() for bb, idx, pl, rv, st in b.stores()
+          for el in pl['p'] if el['k'] == 'field' and (el.get('of') or '').endswith('BlockHeightRange')]
+    ctx.check('args', 'range-immutable', not wr, None, 'stores to BlockHeightRange fields: %s' % wr)
+
+
 def run(ctx):
     ctx.trusted += ['rustc MIR construction', 'core::ops::Range/RangeInclusive iteration semantics',
                     'HashMap::retain/keys semantics']
@@ -527,6 +555,7 @@ def run(ctx):
     ctx.guard('trim', rule_trim)
     ctx.guard('names', rule_names)
     ctx.guard('slice', rule_slice)
+    ctx.guard('args', rule_args)
     ctx.floor('upper', 1)
     ctx.floor('start', 5)
     ctx.floor('once', 7)
@@ -535,3 +564,4 @@ def run(ctx):
     ctx.floor('trim', 3)
     ctx.floor('names', 6)
     ctx.floor('slice', 5)
+    ctx.floor('args', 6)
